@@ -2,8 +2,12 @@
 
 package modules
 
+import "time"
+
 func verifTaskNop() {}
 
 func verifTaskOp(point string, t *Task) func() { return verifTaskNop }
 
 func verifTaskEnd(point string, t *Task) {}
+
+func verifTaskEndAt(point string, t *Task, now time.Time) {}
